@@ -476,7 +476,7 @@ class EvolvableMultiInput(EvolvableModule):
         if numb_new_nodes is None:
             numb_new_nodes = np.random.choice([8, 16, 32], 1)[0]
 
-        if self.latent_dim + numb_new_nodes < self.max_latent_dim:
+        if self.latent_dim + numb_new_nodes <= self.max_latent_dim:
             self.latent_dim += numb_new_nodes
 
         return {"numb_new_nodes": numb_new_nodes}
@@ -496,7 +496,7 @@ class EvolvableMultiInput(EvolvableModule):
         if numb_new_nodes is None:
             numb_new_nodes = np.random.choice([8, 16, 32], 1)[0]
 
-        if self.latent_dim - numb_new_nodes > self.min_latent_dim:
+        if self.latent_dim - numb_new_nodes >= self.min_latent_dim:
             self.latent_dim -= numb_new_nodes
 
         return {"numb_new_nodes": numb_new_nodes}
